@@ -34,7 +34,8 @@ From Coq Require Import List String ZArith Bool.
 Import ListNotations.
 From Anthem Require Import Base.ISet Syntax.Fol Syntax.Asp Sem.Domain Sem.Sat Sem.AspRef Model.Problem
   Model.Strong Model.StrongFull Proofs.SemBase Proofs.DecomposeOk Proofs.StrongOk Proofs.TauStarProgram
-  Proofs.StrongFullOk Proofs.StrongFuel Proofs.ParserImage Proofs.ParserImagePipeline Proofs.NoPanic.
+  Proofs.StrongFullOk Proofs.StrongFuel Proofs.ParserImage Proofs.ParserImagePipeline Proofs.NoPanic Proofs.AspNamed.
+From Anthem Require Model.AspParse.
 Open Scope string_scope.
 
 (* the general statement (any direction) *)
@@ -225,6 +226,13 @@ Theorem C03_full_total :
     exists n pbs, forall m, n <= m -> strong_decompose_full_fuel m t = SOk pbs.
 Proof. exact strong_total_outside_overflow. Qed.
 Print Assumptions C03_full_total.
+
+(* the hypothesis is what the ASP parser guarantees: every program text the parser accepts yields a
+   program whose variables have non-empty names (AspImage: variables match [A-Z][A-Za-z0-9]*) *)
+Theorem C03_parsed_programs_named :
+  forall (s : string) (p : program), AspParse.parse_program_text s = AspParse.POk p -> program_vars_named p.
+Proof. exact parsed_program_vars_named. Qed.
+Print Assumptions C03_parsed_programs_named.
 
 (* the generic form: whatever representation step delivers parser-image formulas ([repr_image t P]:
    every formula of the representation of P has >= 1 guard per comparison and non-empty bound
